@@ -40,7 +40,7 @@ impl GlvMarket {
     pub fn total_supply(&self) -> (r: N) ensures r == self.supply { self.supply }
 }
 
-//@struct crates/model/src/glv.rs :: pub struct GlvValueForMarket<T: Unsigned> :: market_token_value_in_glv, pool_value, T, supply
+//@struct crates/model/src/glv.rs :: pub struct GlvValueForMarket<T: Unsigned> :: market_token_value_in_glv, pool_value, supply
 pub struct GlvValueForMarket { pub market_token_value_in_glv: N, pub pool_value: S, pub supply: N }
 impl GlvValueForMarket {
 //@unit C45.GlvValueForMarket.new
